@@ -146,5 +146,7 @@ TraceSpec == TInit /\ [][TraceNext]_<<vars, tvars>>
 \* acceptance: a segment is accepted iff a state that has consumed all of it is reachable;
 \* the check collects the printed segment numbers
 Reached == (i = Segs[seg].last + 1) => PrintT(<<"CASE", ToJson([accept |-> seg])>>)
+\* diagnosis of a single rejected segment: how far does any behaviour get
+Progress == PrintT(<<"CASE", ToJson([at |-> i])>>)
 TView == <<View, tvars>>
 =============================================================================
